@@ -18,6 +18,7 @@ statements (`r ∈ t`) into statements about what is read (`Table.find?`).
 import LnnVerif.Lemmas.TableLemmas
 import LnnVerif.Lemmas.Arith
 import Mathlib.Algebra.Order.Field.Rat
+import LnnVerif.Lemmas.PendLemmas
 
 set_option linter.unusedSectionVars false
 
@@ -379,5 +380,25 @@ example : (aggregate .both (⟨1, 1⟩ : Bounds ℚ) ⟨0, 1/2⟩).1 = ⟨1, 1/2
   constructor
   · simp [aggregate, clamp01]; norm_num
   · simp [aggregate, clamp01]
+
+/-! ### rows created by grounding propagation through a partially quantified formula -/
+
+section pend
+
+variable {ι : Type} [DecidableEq ι] {α : Type} [Field α] [LinearOrder α]
+
+/-- `_propagate_groundings` (a quantifier with free variables instantiating its body at the
+groundings its parent gave it) creates rows only in the body, only at the body's world default,
+data and working bound alike -/
+theorem C14_propagate_only_world (kb : FKB ι α) (i : ι) (p : PState ι α) (k : ι) :
+    ∀ r ∈ (propagateQ kb i p).st.get k, r ∈ p.st.get k ∨ r = ⟨r.g, (kb k).world, (kb k).world⟩ :=
+  propagateQ_only_world kb i p k
+
+/-- … and no query of any formula sees it -/
+theorem C14_propagate_read_unchanged (kb : FKB ι α) (i : ι) (p : PState ι α) (k : ι) (g : Gr) :
+    Table.getD (kb k).world ((propagateQ kb i p).st.get k) g = Table.getD (kb k).world (p.st.get k) g :=
+  propagateQ_read kb i p k g
+
+end pend
 
 end LNN
